@@ -66,11 +66,12 @@ def forbidden_tokens():
 
 
 def modules_of(prop):
-    """the property file and, when present, its continuation `Props/<prop>b.lean` (theorems that need lemma files which themselves
+    """the property file and, when present, its continuations `Props/<prop>b.lean`, `…c.lean`, … (theorems that need lemma files which themselves
     build on the property file, so cannot be imported by it)"""
     mods = [prop]
-    if os.path.exists(os.path.join(LEANDIR, "Cinco", "Props", prop + "b.lean")):
-        mods.append(prop + "b")
+    for suffix in "bcdef":
+        if os.path.exists(os.path.join(LEANDIR, "Cinco", "Props", prop + suffix + ".lean")):
+            mods.append(prop + suffix)
     return mods
 
 
